@@ -181,6 +181,7 @@ class C19(Check):
     def _evaluate(self, case):
         out = Outcome()
         objs = build_objs(case['objs'])
+        objs_before = repr(objs) if not case['objs'].get('regular') else None      # (the dump does not own the caller's objects)
         comp = case['compression']
         mode = case['mode']
         out.tags += [comp or 'none', case['objs']['alpha']]
@@ -217,6 +218,7 @@ class C19(Check):
         elif mode == 'whole':
             # a single JSON document read back with lines=False (the file is decoded and parsed as a whole)
             objs = objs[:1] or [{'only': 1}]
+            objs_before = repr(objs)
             path = os.path.join(self._tmpdir(), 'w.json')
             if os.path.exists(path):
                 os.unlink(path)
@@ -320,6 +322,9 @@ class C19(Check):
         if any(ord(c) > 0xffff for c in repr(objs)):
             out.tags.append('astral')
 
+        out.observed['source_objects_compared_after_the_dump'] += len(objs)
+        if objs_before is not None and repr(objs) != objs_before:
+            return out.fail('dump-changed-the-objects-it-was-given', before=objs_before[:300], after=repr(objs)[:300])
         if got.err is not None:
             return out.fail('load-error', error=repr(got.err), size=size)
         if not got.done:
